@@ -4,7 +4,7 @@ open Drv_common
 (* ---------- kinds: stream / streamgarbage / streamspec (C13, stream clause of C01) ----------
    The extracted readers (tcp_run_dns / gnet_feed_dns) decode the case's segments; every decoded query is answered by the
    router model (handle + respond, or refuse beyond the in-flight limit); the result line is what the client reads back,
-   as a multiset of response bodies, plus the reader's final status and, for the exact gnet feed, the connCtx trace. *)
+   as a multiset of response bodies, plus the reader's final rd_status and, for the exact gnet feed, the connCtx trace. *)
 
 let split c s = if s = "" || s = "-" then [] else String.split_on_char c s
 
@@ -116,7 +116,7 @@ let predict (f : (string * string) list) : (pred, string) result =
             (int_of_nat inb) (match act with GaNone -> "none" | GaClose -> "close") in
         (match tr with [] -> "-" | _ -> String.concat ";" (List.map one tr))
       else "-" in
-    Result.Ok { p_st = (match st with NeedMore -> "open" | Closed -> "closed"); p_units = units; p_tr = trs; p_spec = !spec; p_unscripted = !unscripted }
+    Result.Ok { p_st = (match st with RdNeedMore -> "open" | RdClosed -> "closed"); p_units = units; p_tr = trs; p_spec = !spec; p_unscripted = !unscripted }
 
 let ans_of (u : n list) : string =
   match u with
